@@ -56,6 +56,7 @@ func SeqProfileFor(name string, seed int64) SeqProfile {
 			{"s", "str", []string{"", "concat"}[r.Intn(2)], "string"}, {"b", "bool", "", "bool"}, {"e", "enum", "", "enum"}}
 		p.Idx = []IdxDesc{{"big", "a", "ge", 5}, {"small", "a", "lt", 3}, {"sa", "s", "eq", []int{0}}, {"on", "b", "true", 0}, {"e1", "e", "eq", "e1"}}
 		p.PSchema = 0.3
+		p.PSchemaIn = 0.12
 		p.PIdxStep = 0.5
 		p.IdxFirst = r.Intn(2) == 0 // several indexes per column from the start: dropping one must leave the others attached
 		p.PRollback, p.PFailIns = 0.05, 0
@@ -88,7 +89,8 @@ func SeqProfileFor(name string, seed int64) SeqProfile {
 	case "c19": // triggers: puts, merges, deletes, rollbacks; created and dropped mid-history
 		p.PDropCol = 0.6
 		p.Cols = []ColDesc{{"a", "int", []string{"add", "affine", "replace", "sat"}[r.Intn(4)], numRepr()}, {"s", "str", []string{"", "concat"}[r.Intn(2)], "string"}}
-		p.Trigs = [][2]string{{"ta", "a"}, {"ts", "s"}, {"ta2", "a"}}
+		p.Cols = append(p.Cols, ColDesc{"b", "bool", "", "bool"}) // (true / false stores of a bool column are operation types, not values)
+		p.Trigs = [][2]string{{"ta", "a"}, {"ts", "s"}, {"ta2", "a"}, {"tb", "b"}}
 		p.PSchema = 0.2
 		p.PRollback, p.PFailIns = 0.2, 0.1
 		// long bodies over rows on both sides of a block boundary: a column's buffer then holds several sections per block
